@@ -238,7 +238,7 @@ def step (s : St) (t : Tid) (e : Ev) : Option St :=
     | .lock w =>
       match e with
       | .ret (.lock w') =>
-          if w' = w then some ({ s with hnd := upd s.hnd t (.fresh w), live := t :: s.live }.setPc t .idle) else none
+          if w' = w ∧ s.dt = false then some ({ s with hnd := upd s.hnd t (.fresh w), live := t :: s.live }.setPc t .idle) else none
       | _ => none
     | .rel =>
       match s.hnd t with
